@@ -92,12 +92,19 @@ var modelOrbits = map[string][][]rune{
 	"A":   {{'A', 'a'}, {'B', 'b'}, {'Z', 'z'}, {'I', 'i'}},
 	"E":   {{'\u00C9', '\u00E9'}, {'\u00DC', '\u00FC'}, {'\u042F', '\u044F'}, {'\u0394', '\u03B4'}},
 	"ONE": {{'1'}, {'7'}, {'_'}, {'-'}, {' '}},
+	// Fold.tla's PunctTable: ASCII non-letters one bit (0x20) away from another ASCII character.
+	"AT": {{'@'}}, "BQ": {{'`'}}, "LB": {{'['}}, "LC": {{'{'}}, "BSL": {{'\\'}}, "PIPE": {{'|'}},
+	"RB": {{']'}}, "RC": {{'}'}}, "CARET": {{'^'}}, "TILDE": {{'~'}}, "US": {{'_'}}, "DEL": {{0x7f}},
+	"D0": {{'0'}}, "C10": {{0x10}}, "D9": {{'9'}}, "C19": {{0x19}}, "SP": {{' '}}, "NUL": {{0}},
+	"DASH": {{'-'}}, "CR": {{'\r'}},
 }
 
 // modelBytes is Fold.tla's ModelTable, repeated here only to cross-check the
 // concretisation table against package unicode at start-up.
 var modelBytes = map[string][]int{
 	"K": {1, 1, 3}, "S": {1, 1, 2}, "SIG": {2, 2, 2}, "A": {1, 1}, "E": {2, 2}, "ONE": {1},
+	"AT": {1}, "BQ": {1}, "LB": {1}, "LC": {1}, "BSL": {1}, "PIPE": {1}, "RB": {1}, "RC": {1}, "CARET": {1}, "TILDE": {1},
+	"US": {1}, "DEL": {1}, "D0": {1}, "C10": {1}, "D9": {1}, "C19": {1}, "SP": {1}, "NUL": {1}, "DASH": {1}, "CR": {1},
 }
 
 func checkModelOrbits() error {
@@ -389,7 +396,13 @@ var foldPool = []rune{
 	'\u03B9', '\u0399', '\u0345', '\u1FBE', // iota: four members, 2 and 3 bytes
 	'\U00010400', '\U00010428', // Deseret: 4 bytes
 	'\u4E16', '\u0416', '\u0436', 'z', 'Z',
+	// ASCII non-letters one bit away from another character or next to the letter ranges
+	'@', '`', '[', '{', '\\', '|', ']', '}', '^', '~', '_', 0x7f, '0', 0x10, '9', 0x19, 0, '\r', '\n', '*', 'o', 'O', 'b', 'B',
 }
+
+// asciiEdgePool: pairs of ASCII characters that differ only in bit 0x20, of which at most one is a letter.
+var asciiEdgePool = []rune{'@', '`', '[', '{', '\\', '|', ']', '}', '^', '~', '_', 0x7f, '0', 0x10, '1', 0x11, '9', 0x19, ' ', 0, '-', '\r',
+	'a', 'A', 'z', 'Z', 'o', 'O', 'k', 'K', 's', 'S'}
 
 type orbitInfo struct {
 	id      string
@@ -438,6 +451,12 @@ func recordFold(args []string) error {
 			abstractRune(m, cache, table)
 		}
 	}
+	for r := rune(0); r < 0x80; r++ { // every ASCII character may appear (bit-flipped copies)
+		abstractRune(r, cache, table)
+	}
+	for _, r := range asciiEdgePool {
+		abstractRune(r, cache, table)
+	}
 	tr.Emit(map[string]any{"table": table})
 
 	randRunes := func(n int, pool []rune) []rune {
@@ -473,7 +492,9 @@ func recordFold(args []string) error {
 	for i := 0; i < total; i++ {
 		// A small sub-pool per pair makes accidental matches frequent.
 		pool := foldPool
-		if rng.IntN(3) > 0 {
+		if rng.IntN(6) == 0 {
+			pool = asciiEdgePool
+		} else if rng.IntN(3) > 0 {
 			base := foldPool[rng.IntN(len(foldPool))]
 			pool = append(orbitOf(base), foldPool[rng.IntN(len(foldPool))], foldPool[rng.IntN(len(foldPool))])
 		}
@@ -484,7 +505,16 @@ func recordFold(args []string) error {
 		}
 		sub := randRunes(rng.IntN(maxSub+1), pool)
 		var s []rune
-		switch rng.IntN(4) {
+		switch rng.IntN(5) {
+		case 4: // a copy of sub with bit 0x20 flipped in its ASCII non-letters, letters re-folded: never a match unless sub has none
+			c := refold(sub)
+			for k, r := range c {
+				if r < 0x80 && !(r|0x20 >= 'a' && r|0x20 <= 'z') {
+					c[k] = r ^ 0x20
+				}
+			}
+			s = append(randRunes(rng.IntN(maxS/2+1), pool), c...)
+			s = append(s, randRunes(rng.IntN(3), pool)...)
 		case 0: // unrelated
 			s = randRunes(rng.IntN(maxS+1), pool)
 		case 1: // a re-folded copy of sub embedded
